@@ -15,7 +15,9 @@ alphabet that ignore or keep the old state, so "from any constructor" is "any hi
 well-formed state; **including** the histories that leave the order unspecified (a leaked `iter_mut` guard,
 `.iterMut true prog`) and then continue with arbitrary operations.  The only hypothesis is `Op.Legal`: closures do
 not change the identity (`Hash`/`Eq`) of an item, which is the crate's documented requirement ("well-behaved user
-code"); `P` is any type with a total preorder (`Std.IsLinearPreorder`, the model of a total `Ord`).
+code"), and the other queue handed to `append` (`Op.append o`: ANY store `o`) is itself a queue, i.e. well-formed (`o.WF`,
+e.g. any state reachable by a legal history — it need not be ordered); `P` is any type with a total preorder
+(`Std.IsLinearPreorder`, the model of a total `Ord`).
 
 ## How the statement reads on the real code
 
@@ -40,10 +42,15 @@ Every way the real code can leave the fault-free path is an explicit `Fault` of 
   `208 302 305 307 309 326`: `parent(i) = (i - 1) / 2` at `i = 0`; `401 402`: the checked subtraction in
   `IterMut::len/size_hint`) — ordinary panics (with overflow checks on).
 * `Fault.fuel` — a loop of the model ran out of fuel (no counterpart in the real code; excluded by the same theorem).
-* `Fault.capacity` and `Fault.userPanic` are **never produced by `step`**: the capacity operations are no-ops of the
-  model (`Op.capacityOp`; capacity is not part of the modelled state) and the documented capacity-overflow panic of
-  `reserve`/`with_capacity` is exercised by the correspondence check only; user callbacks are total functions here
-  (closures that panic are the subject of C10).
+* `Fault.capacity` — the **documented capacity-overflow panic** of `reserve` / `with_capacity`, the one panic the claim
+  allows — is produced by `step` **exactly** when `extend` / `from_iter` is handed an iterator whose `size_hint` announces a
+  lower bound `≥ capLimit = 2^61` elements (`reserveC`, `PQ/Model/Store.lean`; `C04_capacity_exactly`).  Such a hint is
+  never `Op.Legal`: a legal `size_hint` has `lo ≤ xs.size < capLimit` (its lower bound does not exceed what the iterator
+  yields).  `Deserialize` never produces it, whatever length the (untrusted) input announces: the pre-allocation is capped
+  (C15).  The explicit capacity operations are no-ops of the model (`Op.capacityOp`; capacity is not part of the modelled
+  state; their own overflow panic is exercised by the correspondence check only).
+* `Fault.userPanic` is **never produced by `step`**: user callbacks are total functions here (closures that panic are the
+  subject of C10).
 
 `QWF q` is `q.s.WF = q.s.TWF q.s.size` (`PQ/Lemmas/Defs.lean`): `map`, `heap`, `qp` all have length `size`, `heap` and
 `qp` are mutually inverse bijections of `0..size`, and keys are unique — exactly what the unchecked accesses trust.
@@ -101,6 +108,53 @@ theorem C04_step {q : Q P} {op : Op P} (hq : QWF q) (hl : op.Legal) :
     ∃ q' o, step q op = .ok (q', o) ∧ QWF q' :=
   hist_step_safe hq hl
 
+/-- **C04, the one allowed panic, exactly.**  On a well-formed queue, for an operation that is legal except possibly for
+the `size_hint` it announces, `step` answers `Fault.capacity` if and only if the operation is `extend` / `from_iter` with an
+announced lower bound `lo ≥ capLimit` (then `reserve(lo)` / `with_capacity(lo)` panics with "capacity overflow" before
+anything else happens); with every other lower bound — legal or not — it succeeds. -/
+theorem C04_capacity_exactly {q : Q P} {op : Op P} (hq : QWF q)
+    (hl : op.Legal ∨ ∃ lo xs, op = .extend lo xs ∨ op = .fromIter lo xs) :
+    (step q op = .error .capacity ↔ ∃ lo xs, (op = .extend lo xs ∨ op = .fromIter lo xs) ∧ capLimit ≤ lo) ∧
+    ((¬ ∃ lo xs, (op = .extend lo xs ∨ op = .fromIter lo xs) ∧ capLimit ≤ lo) → ∃ q' o, step q op = .ok (q', o) ∧ QWF q') := by
+  have hcap : ∀ lo xs, capLimit ≤ lo →
+      step q (.extend lo xs) = .error .capacity ∧ step q (.fromIter lo xs) = .error .capacity := by
+    intro lo xs hlo
+    obtain ⟨kind, s⟩ := q
+    cases kind <;>
+      simp only [step, MaxQ.extend_of_ge xs hlo, DQ.extend_of_ge xs hlo, MaxQ.fromIter_of_ge xs hlo,
+        DQ.fromIter_of_ge xs hlo, bind, Except.bind] <;> first | exact ⟨rfl, rfl⟩ | exact ⟨trivial, trivial⟩ | trivial
+  have hok : (¬ ∃ lo xs, (op = .extend lo xs ∨ op = .fromIter lo xs) ∧ capLimit ≤ lo) →
+      ∃ q' o, step q op = .ok (q', o) ∧ QWF q' := by
+    intro hn
+    rcases hl with hl | ⟨lo, xs, rfl | rfl⟩
+    · exact hist_step_safe hq hl
+    · have hlo : lo < capLimit := Nat.lt_of_not_le (fun h => hn ⟨lo, xs, .inl rfl, h⟩)
+      obtain ⟨kind, s⟩ := q
+      cases kind
+      · obtain ⟨s', he, hwf, _⟩ := MaxQ.extend_safe hq lo xs hlo
+        refine ⟨⟨Kind.pq, s'⟩, Out.unit, ?_, hwf⟩
+        simp only [step, he, bind, Except.bind, pure, Except.pure]
+      · obtain ⟨s', he, hwf, _⟩ := DQ.extend_safe hq lo xs hlo
+        refine ⟨⟨Kind.dpq, s'⟩, Out.unit, ?_, hwf⟩
+        simp only [step, he, bind, Except.bind, pure, Except.pure]
+    · have hlo : lo < capLimit := Nat.lt_of_not_le (fun h => hn ⟨lo, xs, .inr rfl, h⟩)
+      obtain ⟨kind, s⟩ := q
+      cases kind
+      · obtain ⟨s', he, hwf, _⟩ := MaxQ.fromIter_safe lo xs hlo
+        refine ⟨⟨Kind.pq, s'⟩, Out.unit, ?_, hwf⟩
+        simp only [step, he, bind, Except.bind, pure, Except.pure]
+      · obtain ⟨s', he, hwf, _⟩ := DQ.fromIter_safe lo xs hlo
+        refine ⟨⟨Kind.dpq, s'⟩, Out.unit, ?_, hwf⟩
+        simp only [step, he, bind, Except.bind, pure, Except.pure]
+  refine ⟨⟨fun h => ?_, ?_⟩, hok⟩
+  · apply Classical.byContradiction
+    intro hn
+    obtain ⟨q', o, h', _⟩ := hok hn
+    rw [h'] at h; cases h
+  · rintro ⟨lo, xs, rfl | rfl, hlo⟩
+    · exact (hcap lo xs hlo).1
+    · exact (hcap lo xs hlo).2
+
 /-- **C04, the leaked guard itself**: `iter_mut` with ANY program of calls and writes, guard leaked, from a well-formed
 queue of either kind: no fault, every slot is handed out at most once and is a stored slot, the keys of all slots are
 unchanged, the result is well-formed. -/
@@ -129,6 +183,20 @@ theorem C04_debug_after_history (ops : List (Op P)) (hl : ∀ op ∈ ops, op.Leg
 /-! ## Non-vacuity: histories that leak a guard and continue, on both kinds -/
 section Examples
 
+/-- the other queue handed to `append`: built by pushes and then disordered by a leaked guard (well-formed, index tables
+not the identity, NOT ordered), twelve elements — longer than the receiver at that point, so the stores are swapped -/
+private def exOther : Store Nat :=
+  match run (Q.new .pq) [.extend 0 (Array.ofFn (n := 12) fun i => (⟨50 + i.val, 0⟩, (7 * i.val) % 12)),
+      .iterMut true [(.next, ⟨some 100, none⟩), (.next, ⟨some 0, none⟩)]] with
+  | .ok (q, _) => q.s
+  | .error _ => Store.empty
+
+example : exOther.WF ∧ ¬ MaxQ.Inv exOther ∧ exOther.size = 12 ∧ exOther.heap ≠ Array.range 12 := by decide +kernel
+
+/-- forty pairs over two new keys, from an iterator that announces all forty: on the nine-element max-heap this is the
+REBUILD strategy of `extend` (`better_to_rebuild 9 40`), on the six-element min-max heap the push strategy -/
+private def ex40 : Array (Item × Nat) := Array.ofFn (n := 40) fun i => (⟨32 + i.val % 2, 0⟩, i.val)
+
 /-- pushes, a leaked guard that turns the order upside down (every priority rewritten), then every kind of
 order-dependent operation on the disordered queue, a second leak, and more operations -/
 private def exOps : List (Op Nat) :=
@@ -139,22 +207,38 @@ private def exOps : List (Op Nat) :=
    .peekFrontMut (fun it => ⟨it.key, 5⟩), .peekBackMut (fun it => ⟨it.key, 6⟩), .pushIncrease ⟨7, 0⟩ 99,
    .pushDecrease ⟨8, 0⟩ 0, .getMut 7 (fun it => ⟨it.key, 1⟩), .extend 0 #[(⟨30, 0⟩, 1), (⟨31, 0⟩, 77)],
    .iterMut true [(.nextBack, ⟨some 1000, none⟩), (.next, ⟨some 0, some 4⟩), (.len, ⟨none, none⟩)],
-   .popFront, .popBack, .extend 100 #[(⟨32, 0⟩, 5)], .capacityOp, .popFront, .drain, .popFront, .push ⟨1, 1⟩ 1]
+   .popFront, .popBack, .extend 40 ex40, .capacityOp, .popFront, .append exOther, .drain, .popFront,
+   .push ⟨1, 1⟩ 1]
 
 example : ∀ op ∈ exOps, op.Legal := by
   intro op h
   simp only [exOps, List.mem_cons, List.not_mem_nil, or_false] at h
-  rcases h with h | h | h | h | h | h | h | h | h | h | h | h | h | h | h | h | h | h | h | h | h | h | h | h | h | h <;>
-    subst h <;> first | exact trivial | (intro _; rfl) | (intro _ _; rfl)
+  rcases h with h | h | h | h | h | h | h | h | h | h | h | h | h | h | h | h | h | h | h | h | h | h | h | h | h | h | h <;>
+    subst h <;> first | exact trivial | (intro _; rfl) | (intro _ _; rfl) | (show Store.WF _; decide +kernel) |
+      (show _ ∧ _ < capLimit; decide +kernel)
 
+example : Arith.betterToRebuild 9 40 = true ∧ Arith.betterToRebuild 6 40 = false ∧
+    hist_okR (run (Q.new .pq) (exOps.take 20)) (fun r => r.1.s.size = 9) ∧
+    hist_okR (run (Q.new .dpq) (exOps.take 20)) (fun r => r.1.s.size = 6) := by decide +kernel
 -- both kinds: the history runs to completion; well-formed after the whole history …
-example : hist_okR (run (Q.new .pq) exOps) (fun r => r.1.s.WF ∧ r.2.length = 26 ∧ r.1.s.size = 1) := by decide +kernel
-example : hist_okR (run (Q.new .dpq) exOps) (fun r => r.1.s.WF ∧ r.2.length = 26 ∧ r.1.s.size = 1) := by decide +kernel
+example : hist_okR (run (Q.new .pq) exOps) (fun r => r.1.s.WF ∧ r.2.length = 27 ∧ r.1.s.size = 1) := by decide +kernel
+example : hist_okR (run (Q.new .dpq) exOps) (fun r => r.1.s.WF ∧ r.2.length = 27 ∧ r.1.s.size = 1) := by decide +kernel
 -- … and in the middle, where the queue is well-formed but NOT ordered (so the order-dependent operations that follow
 -- really run on a disordered store)
 example : hist_okR (run (Q.new .pq) (exOps.take 2)) (fun r => r.1.s.WF ∧ ¬ MaxQ.Inv r.1.s ∧ r.1.s.size = 9) := by
   decide +kernel
 example : hist_okR (run (Q.new .pq) (exOps.take 18)) (fun r => r.1.s.WF ∧ ¬ MaxQ.Inv r.1.s) := by decide +kernel
+-- the `append` of the (longer, disordered, non-identity) other queue: receiver and other are swapped, the union is
+-- rebuilt, the other queue is reported empty
+example : hist_okR (run (Q.new .pq) (exOps.take 23)) (fun r => r.1.s.size < 12) ∧
+    hist_okR (run (Q.new .pq) (exOps.take 24)) (fun r => MaxQ.Inv r.1.s ∧ 12 ≤ r.1.s.size ∧
+      r.1.s.map.extract 0 12 = exOther.map ∧ (r.2.getLast? matches some (.other 0 0 0 0))) := by decide +kernel
+-- the one allowed panic: an iterator announcing 2^61 elements (it yields one) — `Fault.capacity`; the hint is not legal
+example : ¬ (Op.extend (2 ^ 61) #[((⟨1, 0⟩ : Item), 1)] : Op Nat).Legal := fun h => absurd h.1 (by decide)
+example : (match step (Q.new .pq) (.extend (2 ^ 61) #[((⟨1, 0⟩ : Item), 1)] : Op Nat) with
+    | .error .capacity => true | _ => false) = true ∧
+  (match run (Q.new .dpq) [.push ⟨1, 0⟩ 1, .fromIter (2 ^ 64 - 1) #[((⟨1, 0⟩ : Item), 1)], .popFront] with
+    | .error .capacity => true | _ => false) = true := by decide +kernel
 -- `Debug` on the disordered queue: nine entries, heap order
 example : hist_okR (run (Q.new .dpq) (exOps.take 2))
     (fun r => (match r.1.s.debugEntries with | .ok l => l.length == 9 | .error _ => false) = true) := by decide +kernel
@@ -176,5 +260,6 @@ end PQ
 #print axioms PQ.C04_wf_reach
 #print axioms PQ.C04_every_prefix
 #print axioms PQ.C04_step
+#print axioms PQ.C04_capacity_exactly
 #print axioms PQ.C04_leaked_iterMut
 #print axioms PQ.C04_debug_after_history
